@@ -210,7 +210,7 @@ def run(ck, ctx):
         for callee, param, col in (("Taus.__call__", "betas", "beta_rad"), ("EAS.altDec", "beta", "beta_rad"),
                                    ("EAS.altDec", "tauBeta", "tauBeta"), ("EAS.altDec", "tauLorentz", "tauLorentz")):
             for fi, site, loc, v, pc in CG.calls(callee):
-                a = loc.get(param)
+                a = getattr(loc, "entry", loc).get(param)        # the argument as passed (a stage may rebind the name)
                 if a is None:
                     continue
                 n += 1
